@@ -14,6 +14,16 @@ Oracles (written from the property statement, O(n^2) brute force, never from the
                 ia[k] indexes a column of b equal to the k-th member column of a (any such column is accepted).
   * intersect_sets: pairs (i, j) with |a_i - b_j| <= tol by brute force, on inputs where every pairwise distance
                 is either <= tol/2 or >= 2*tol (requires; the boundary is left to floating point).
+                Consequence of this requires: a pair that is within tol in every coordinate but NOT within tol in the Euclidean
+                distance (distance in (tol, sqrt(nd) tol]) is admissible only when sqrt(nd) tol > 2 tol, i.e. for nd >= 5; for
+                nd <= 3 the whole interval lies in the excluded band (nd = 4: only its end point).  Such pairs are therefore
+                enumerated in dimensions 4-6 (the function is dimension-independent; SparseNdArray and the interpolation tables
+                call it with arbitrary nd), with all coordinate differences 0.95 tol (distance >= 2.12 tol for nd >= 5).
+
+Input classes of the uniquify sweeps: (1) clusters in distinct directions whose 2-norms are placed around anchor + tol;
+(2) integer / seeded sets; (3) an axis cluster and a diagonal cluster whose 1-norms (resp. max-norms) are placed around each
+other's 1-norm (max-norm) + tol in the same way while their 2-norms are far apart -- every cluster inside one 2-norm bin, so
+the statement demands the plain result and the known defect below is not involved.
 
 Expected on the unchanged tree (DESIGN section 7, F8): the norm pre-clustering of uniquify_point_set is anchored at the
 first (smallest) norm of a bin; a cluster whose member norms lie on both sides of anchor+tol is split into two
@@ -29,6 +39,12 @@ Detection power (scratch copy of /repo/src under /var/tmp, POREPY_SRC=<copy>, qu
   M4 intersect_sets: a_in_b[ia] -> a_in_b[ib] -> caught by "intersect_sets: a_in_b mask" (and, where ib is out of range for a,
        by "intersect_sets: returns normally on admissible input": exceptions of the code under test are violations, not crashes).
   M5 fracs.utils.uniquify_points: np.diff(e_unique_p[:2]...) == 0 -> == 1 -> caught by "uniquify_points: degenerate edges removed".
+  M6 intersect_sets: query_ball_tree(b_tree, tol) -> (..., tol, p=np.inf) (max norm instead of Euclidean distance) -> caught by all four
+       intersect_sets obligations with signature "5-d ... close in every coordinate, far in Euclidean distance" (and 6-d); not
+       observable for nd <= 3 under the requires of this file (see above).
+  M7 uniquify_point_set: pre-clustering norm sqrt(sum(p**2)) -> sum(abs(p)) (1-norm) -> caught by "uniquify_point_set: one
+       representative per cluster" with signature "clusters inside one 2-norm bin each, but cluster 1-norms on both sides of
+       (a smaller 1-norm + tol)" (input class 3).
 """
 from __future__ import annotations
 
@@ -37,12 +53,17 @@ META = {
     "engine": "sweep",
     "technique": "run-time contract sweep (bounded stand-in for deduction): requires/ensures of the statement evaluated on the real "
                  "functions over exhaustively enumerated small clustered point sets (all norm placements around the pre-clustering "
-                 "threshold, all orders of the points), exhaustive small integer column sets, plus seeded samples",
+                 "threshold -- in the 2-norm, and for axis/diagonal cluster pairs in the 1-norm and the max-norm --, all orders of the "
+                 "points), exhaustive small integer column sets, 4-6 dimensional sets with pairs close in every coordinate but far in "
+                 "Euclidean distance, plus seeded samples",
     "text": "Bounded assurance only: the contract is evaluated natively on every enumerated input; the data-dependent Python/numba "
             "loops over numpy slices and KDTree keep the bodies out of the symbolic engine. Covers uniquify_point_set (count, "
             "first-occurring representative, order, both index maps), fracs.utils.uniquify_points, ismember_columns (sort on/off, "
-            "1-d and 2-d) and intersect_sets (all four outputs). Not demanded: which of several equal columns of b ismember_columns "
-            "returns (the statement only says 'agree with brute-force comparison').",
+            "1-d and 2-d) and intersect_sets (all four outputs; dimensions 1-6). Not demanded: which of several equal columns of b "
+            "ismember_columns returns (the statement only says 'agree with brute-force comparison'). Not covered: intersect_sets on pairs "
+            "at a distance in (tol/2, 2 tol) -- in particular, for nd <= 3, pairs within tol in every coordinate but further than tol "
+            "apart (distance in (tol, sqrt(nd) tol]) are excluded by the requires; that distinction (Euclidean vs. max-norm ball) is "
+            "exercised in 5 and 6 dimensions only.",
     "note": "trusted: numpy, brute-force O(n^2) oracles in this file; cluster requires: diameter <= tol/100, separation >= 100 tol; "
             "intersect_sets requires all pair distances <= tol/2 or >= 2 tol",
 }
@@ -101,10 +122,13 @@ def _requires_clusters(P, tol):
     return ok, lab
 
 
-def _straddles(P, tol, lab):
+def _straddles(P, tol, lab, p=2):
     """Signature classifier only: does some cluster have members in different greedy norm bins (bins anchored at the
-    smallest norm not yet binned, width tol)?"""
-    norms = np.sqrt(np.sum(np.asarray(P, dtype=float) ** 2, axis=0))
+    smallest norm not yet binned, width tol)?  p selects the norm (2, 1 or 'max')."""
+    Pf = np.asarray(P, dtype=float)
+    if Pf.shape[1] == 0:
+        return False
+    norms = np.sqrt(np.sum(Pf ** 2, axis=0)) if p == 2 else (np.sum(np.abs(Pf), axis=0) if p == 1 else np.max(np.abs(Pf), axis=0))
     idx = np.argsort(norms, kind="stable")
     bins = np.zeros(len(norms), dtype=int)
     anchor, b = norms[idx[0]], 0
@@ -254,7 +278,13 @@ def _member_sets(quick):
 
 
 def _sig(P, tol, lab):
-    return SIG_STRADDLE if _straddles(P, tol, lab) else "clusters inside one norm bin each"
+    if _straddles(P, tol, lab):
+        return SIG_STRADDLE
+    if _straddles(P, tol, lab, 1):
+        return "clusters inside one 2-norm bin each, but cluster 1-norms on both sides of (a smaller 1-norm + tol)"
+    if _straddles(P, tol, lab, "max"):
+        return "clusters inside one 2-norm bin each, but cluster max-norms on both sides of (a smaller max-norm + tol)"
+    return "clusters inside one norm bin each"
 
 
 def _report(rep, bad, P, tol, lab, extra=None):
@@ -394,6 +424,59 @@ def _sweep_uniquify(rep, pp):
                         sw.case((P.tobytes(), el), nontrivial=deg or len(set(lab)) < n, sample={"points": P.tolist(), "edges": E.tolist(), "tol": tol})
                         _report(rep, bad, P, tol, lab, extra={"edges": E.tolist()})
 
+    # "Cluster norms close to each other" with the norm read as the 1-norm or the max-norm: an axis cluster and a diagonal cluster
+    # whose p-norms (p = 1, max) are placed around each other's p-norm + tol exactly like the 2-norms in the first sweep, while their
+    # 2-norms differ by a factor >= sqrt(2) (so every cluster lies inside one 2-norm bin: not the known 2-norm straddling class).
+    with rep.sweep(
+        "uniquify_point_set: axis and diagonal clusters with close 1-norms / max-norms",
+        rule="nd in {2,3,5} x tol in {1e-3, 1e-8, 0.25} x r0 = 1000 tol (and 1.0 for tol 1e-3) x p in {1, max} x roles {anchor on a "
+             "diagonal (all |coordinates| equal, signs alternating or equal), other cluster on a coordinate axis (first/last, +/-); anchor "
+             "on the axis, other on the diagonal}: anchor cluster (1-2 members) with p-norm r0, the other cluster with p-norm r0 + (P + o) "
+             "tol for every placement P in {same, inside, below, straddle, above, second, far} and member offsets o from {-.0016, 0, "
+             "+.0016} (measured in the p-norm along the cluster's ray) x all orders of the points; requires re-checked by brute force "
+             "(Euclidean diameter <= tol/100, separation >= 100 tol); nontrivial = P < 3 or a cluster with > 1 member; distinct by "
+             "(nd, tol, r0, p, role, spec, order)",
+        bound="2 clusters, <= 2 + 3 members, all permutations",
+        exhaustive=True,
+    ) as sw:
+        tols = [(1e-3, 1.0), (1e-8, None), (0.25, None)] if quick else [(1e-3, 1.0), (1e-3, None), (1e-8, None), (0.25, None)]
+        msets = _member_sets(quick)
+        for nd in (2, 3, 5):
+            diags = [np.array([1.0 if k % 2 == 0 else -1.0 for k in range(nd)]), np.ones(nd)]
+            axes = []
+            for k, s in ((0, 1.0), (nd - 1, -1.0)):
+                e = np.zeros(nd)
+                e[k] = s
+                axes.append(e)
+            for tol, r0 in tols:
+                r0 = 1000 * tol if r0 is None else r0
+                for p in (1, "max"):
+                    # unit vectors of the p-norm along the rays
+                    rays_d = [d / (nd if p == 1 else 1.0) for d in diags]
+                    for role in ("anchor diagonal", "anchor axis"):
+                        for vi in range(2):
+                            ra, rb = (rays_d[vi], axes[vi]) if role == "anchor diagonal" else (axes[vi], rays_d[vi])
+                            for plc in PLACEMENTS:
+                                for m0 in msets[:2]:
+                                    for m1 in msets:
+                                        # offsets scaled by 0.4: a diagonal cluster of max-norm width w has Euclidean diameter sqrt(nd) w
+                                        cols = [ra * (r0 + 0.4 * o * tol) for o in m0] + \
+                                               [rb * (r0 + (PLACEMENTS[plc] + 0.4 * o) * tol) for o in m1]
+                                        P0 = np.ascontiguousarray(np.array(cols).T)
+                                        n = P0.shape[1]
+                                        assert n <= 5  # all permutations, no seeded orders
+                                        for order in itertools.permutations(range(n)):
+                                            P = np.ascontiguousarray(P0[:, list(order)])
+                                            bad = check_uniquify(pp, P, tol)
+                                            if bad is None:
+                                                sw.skip()
+                                                continue
+                                            _, lab = _requires_clusters(P, tol)
+                                            sw.case((nd, tol, r0, p, role, vi, plc, m0, m1, order),
+                                                    nontrivial=PLACEMENTS[plc] < 3 or len(m0) > 1 or len(m1) > 1,
+                                                    sample={"points": P.tolist(), "tol": tol})
+                                            _report(rep, bad, P, tol, lab)
+
 
 # ----------------------------------------------------------------------------- ismember_columns
 
@@ -528,8 +611,9 @@ def _sweep_intersect(rep, pp):
              "distinct by (a, b, tol)",
         bound="n <= 3 exhaustive; %d seeded" % (300 if quick else 5000),
         exhaustive=False,
-    ) as sw:
-        def one(a, b, tol, key):
+    ) as sw_first:
+        def one(a, b, tol, key, sw=None, tag=""):
+            sw = sw_first if sw is None else sw
             bad = check_intersect(pp, a, b, tol)
             if bad is None:
                 sw.skip()
@@ -540,7 +624,7 @@ def _sweep_intersect(rep, pp):
             multi = any(sum(r) > 1 for r in m) or any(sum(m[i][j] for i in range(len(m))) > 1 for j in range(B.shape[1]))
             sw.case(key, nontrivial=(any(hit) and not all(hit)) or multi, sample={"a": A.tolist(), "b": B.tolist(), "tol": tol})
             for ob, detail in bad:
-                sig = f"{A.shape[0]}-d" + (" empty" if 0 in (A.shape[1], B.shape[1]) else (" multi-match" if multi else ""))
+                sig = f"{A.shape[0]}-d" + (" empty" if 0 in (A.shape[1], B.shape[1]) else (" multi-match" if multi else "")) + tag
                 rep.violation(ob, sig, inputs={"a": a.tolist(), "b": b.tolist(), "tol": tol}, detail=detail, confirmed=True)
 
         # KDTree needs at least a well-formed (n, nd) array; n = 0 is what SparseNdArray passes on its first add.
@@ -575,6 +659,60 @@ def _sweep_intersect(rep, pp):
             b = np.array(bc).T
             one(a, b, tol, ("rnd", a.tobytes(), b.tobytes(), tol))
 
+    # Displacement types of a column of b relative to "its" column of a, in units of tol; c is the common size of ALL coordinate
+    # differences (signs alternate for the "mixed" types).  Euclidean distance = c * sqrt(nd) * tol.
+    #   near:  c = 0.2   -> distance <= 0.49 tol for nd <= 6                      (must match)
+    #   box :  c = 0.95  -> distance >= 2.12 tol for nd >= 5, but every coordinate differs by less than tol   (must NOT match)
+    #   axis-near / axis-far: a single coordinate differs by 0.4 tol / 2.5 tol      (match / no match)
+    with rep.sweep(
+        "intersect_sets: dimensions 4-6, pairs close in every coordinate but not in Euclidean distance",
+        rule="nd in {4,5,6} x tol in {1e-10, 1e-6, 1e-2, 0.25}: a = two fixed well separated columns (and a third one in thorough); every "
+             "column of b is a column of a displaced by one of: nothing (exact copy), c*tol in EVERY coordinate with c = 0.2 (Euclidean "
+             "distance <= tol/2: match) or, for nd >= 5, c = 0.95 (every coordinate differs by less than tol but the Euclidean distance is "
+             ">= 2.1 tol: no match), all signs equal or alternating, or 0.4 tol / 2.5 tol along a single axis; all assignments of a "
+             "displacement type (or 'absent') to the columns; columns of b in given and reversed order; the requires (no distance in "
+             "(tol/2, 2 tol)) is re-checked on the floats, which is why the diagonal non-match needs nd >= 5: for nd <= 3 (and nd = 4 "
+             "up to rounding) every distance in (tol, sqrt(nd) tol] lies inside the excluded band; nontrivial = at least one match and "
+             "one non-match; distinct by (nd, tol, types, order)",
+        bound="2 (thorough 3) columns of a, 9 displacement types each",
+        exhaustive=True,
+    ) as sw2:
+        types = ["absent", "copy", "near+", "near+-", "box+", "box+-", "axis-near", "axis-far", "copy twice"]
+        for nd in (4, 5, 6):
+            base = np.array([[0.5 + 0.125 * k, -0.25 - 0.0625 * k, 0.75 - 0.5 * k][: 2 if quick else 3] for k in range(nd)])
+            na = base.shape[1]
+            alt = np.array([1.0 if k % 2 == 0 else -1.0 for k in range(nd)])
+            for tol in (1e-10, 1e-6, 1e-2, 0.25):
+                sc = 1.0 if tol < 0.1 else 40.0  # keep the columns of a >= 2 tol apart for the coarse tolerance
+                a = base * sc
+                for assign in itertools.product(types, repeat=na):
+                    if any(t.startswith("box") for t in assign) and nd < 5:
+                        continue
+                    cols = []
+                    for i, t in enumerate(assign):
+                        c0 = a[:, i]
+                        if t == "absent":
+                            continue
+                        elif t == "copy":
+                            cols.append(c0.copy())
+                        elif t == "copy twice":
+                            cols += [c0.copy(), c0 + 0.2 * tol * alt]
+                        elif t in ("near+", "near+-"):
+                            cols.append(c0 + 0.2 * tol * (np.ones(nd) if t == "near+" else alt))
+                        elif t in ("box+", "box+-"):
+                            cols.append(c0 + 0.95 * tol * (np.ones(nd) if t == "box+" else alt))
+                        else:
+                            v = np.zeros(nd)
+                            v[(i + 1) % nd] = (0.4 if t == "axis-near" else 2.5) * tol
+                            cols.append(c0 + v)
+                    for rev in (False, True):
+                        cc = cols[::-1] if rev else cols
+                        if rev and len(cols) < 2:
+                            continue
+                        b = np.array(cc).T.reshape(nd, len(cc))
+                        one(a, b, tol, ("hd", nd, tol, assign, rev), sw=sw2,
+                            tag=" close in every coordinate, far in Euclidean distance" if any(t.startswith("box") for t in assign) else "")
+
 
 # ----------------------------------------------------------------------------- entry
 
@@ -593,7 +731,9 @@ def run(rep):
     )
     rep.trust("numpy array construction and comparison", "brute-force O(n^2) oracles in props/C34.py")
     rep.explanation = ("B only: contracts evaluated natively on exhaustively enumerated small inputs (cluster placements around the norm "
-                       "pre-clustering threshold x all point orders; all small integer column sets) plus seeded samples.")
+                       "pre-clustering threshold in the 2-norm and, for axis/diagonal pairs, in the 1-norm and max-norm x all point orders; "
+                       "all small integer column sets; 4-6 dimensional sets with pairs close per coordinate but far in Euclidean distance) "
+                       "plus seeded samples.")
     _sweep_uniquify(rep, pp)
     _sweep_ismember(rep, pp)
     _sweep_intersect(rep, pp)
